@@ -14,6 +14,31 @@ def sh(cmd, **kw):
     return subprocess.run(cmd, shell=True, stdout=subprocess.PIPE, stderr=subprocess.STDOUT, text=True, **kw)
 
 
+def harvest(pid, k, vio):
+    """The scenario on which the changed tree failed (the minimised input, or the first scenario on which implementation and model
+    disagreed) is kept in the corpus, which every check runs first: the detection of this change no longer depends on what the random
+    generator happens to produce."""
+    if not vio:
+        return
+    path = vio[0].split('replay=')[1].split()[0]
+    try:
+        r = json.load(open(path))
+    except Exception:
+        return
+    fam, sc = r.get('family'), r.get('scenario')
+    if sc is None:
+        for c in r.get('correspondence') or []:
+            if c.get('scenario') is not None and c.get('family') and not str(c.get('name', '')).endswith('.json'):
+                fam, sc = c['family'], c['scenario']
+                break
+    if not fam or sc is None or str(r.get('found_in', '')).endswith('.json'):
+        return          # (found on a corpus scenario already, or a tie broke and no scenario is involved)
+    d = os.path.join(VERIF, 'corpus', fam)
+    os.makedirs(d, exist_ok=True)
+    with open(os.path.join(d, 'seeded_%s_m%s.json' % (pid, k)), 'w') as fh:
+        json.dump(dict(scenario=sc, note='scenario on which seeded change %s m%s was detected (%s)' % (pid, k, r.get('violated') or 'lock-step disagreement')), fh)
+
+
 def main():
     only = set(sys.argv[1:])
     sh('git -C %s worktree add -f %s HEAD' % (REPO, WT))
@@ -37,6 +62,7 @@ def main():
             rows.append((pid, k, kind, '%.0fs' % (time.time() - t0)))
             print(pid, 'm%s' % k, kind, flush=True)
             m['final_own_check'] = kind          # the evaluation on the final tree (tools/seed_table.py prefers it)
+            harvest(pid, k, vio)
             json.dump(m, open(f, 'w'), indent=1)
     finally:
         sh('git -C %s worktree remove --force %s' % (REPO, WT))
